@@ -14,7 +14,7 @@ def run(out, sc, tier, seed):
     run_model(out, sc, "MC_Join", ["Inv_C15_Join"], label="MC_Join[no dots after join]")
     run_value_machine(out, sc, "C15", tier, fields=FIELDS)
     out.exhaustive = True
-    n = 12000 if tier == "quick" else 300000
+    n = 12000 if tier == "quick" else 100000
     run_progs(out, sc, "C15", {"gen": "dots", "n": n, "seed": seed, "fields": FIELDS, "maxseg": 4 if tier == "quick" else 5},
               "dots")
     run_harvest(out, sc, "C15")
